@@ -86,8 +86,8 @@ UNMARSHAL_DISPATCH_TABLE = {
     ")": "small_tuple",
     "(": "tuple",
     "[": "list",
-    "<": "frozenset",
-    ">": "set",
+    "<": "set",
+    ">": "frozenset",
     "{": "dict",
     "R": "python2_string_reference",
     "c": "code",
